@@ -1,6 +1,7 @@
 import Clover.Generated.Facts
 import Clover.Proofs.Window
 import Clover.Proofs.SortOrder
+import Clover.Proofs.SortClasses
 import Clover.Model.QueryBuilder
 /-! # C08 — sort order and skip/limit windows are exact -/
 namespace CV.Props.C08
@@ -121,6 +122,54 @@ theorem builders_keep_other_fields (q : Query) (n : Int) (opts : List (Bytes × 
     (q.sortB opts).skip = q.skip ∧ (q.sortB opts).limit = q.limit ∧ (q.sortB opts).crit = q.crit ∧
     (q.whereB c).skip = q.skip ∧ (q.whereB c).limit = q.limit ∧ (q.whereB c).sort = q.sort :=
   ⟨rfl, rfl, rfl, rfl, rfl, rfl, rfl, rfl, rfl⟩
+
+/-- **Sorted and windowed answers are the specification's, position by position, up to ties** —
+    for EVERY index set, EVERY plan the planner picks (full scan, index range, index-ordered scan with
+    the sort node elided), every criteria, every sort and every skip/limit window: the fault-free
+    answer of `FindAll` has the specification's length and its i-th document is tie-equivalent
+    (`compareDocuments · · q.sort = 0`) to the specification's i-th document.  Two sorted
+    arrangements of the same multiset can differ only inside tie classes
+    (`sorted_perm_forall₂_tie`), and a positional window keeps that.  Domain: the key domain of the
+    two known findings, sort keys pairwise comparable by value, and — only when the sort is served by
+    an index — no matching document carries an explicit nil under the sort key (the one tie class
+    where index order, which puts absent and nil together, differs from `compareDocuments`). -/
+theorem findAll_is_the_specification_up_to_ties (s : Spec.State) (σ : KVS) (hw : WF s) (hr : Rep s σ) (q : Query)
+    (coll : Spec.Coll) (hl : Spec.lookup q.coll s = some coll) (hdomain : KeyDomain q coll)
+    (hsd : SortDom q.sort ((coll.docs.map (·.2)).filter (fun d => satOpt likeFn fnFam d q.crit)))
+    (hnn : (choosePlan coll.indexes q).2 = true →
+      ∀ o ∈ q.sort, ∀ d ∈ (coll.docs.map (·.2)).filter (fun d => satOpt likeFn fnFam d q.crit),
+        d.has o.1 = true → d.get o.1 ≠ .null) :
+    ∃ res, (withTx false (Op.body likeFn fnFam (.findAll q)) noFault σ).1 = .ok (.docs res) ∧
+      List.Forall₂ (fun a b => compareDocuments a b q.sort = 0) res (Spec.findAll likeFn fnFam q coll) :=
+  findAll_classwise_any_plan likeFn fnFam s σ hw hr q coll hl hdomain hsd hnn
+
+/-- … read position by position: same length, and equal up to ties at every index. -/
+theorem findAll_positions (s : Spec.State) (σ : KVS) (hw : WF s) (hr : Rep s σ) (q : Query)
+    (coll : Spec.Coll) (hl : Spec.lookup q.coll s = some coll) (hdomain : KeyDomain q coll)
+    (hsd : SortDom q.sort ((coll.docs.map (·.2)).filter (fun d => satOpt likeFn fnFam d q.crit)))
+    (hnn : (choosePlan coll.indexes q).2 = true →
+      ∀ o ∈ q.sort, ∀ d ∈ (coll.docs.map (·.2)).filter (fun d => satOpt likeFn fnFam d q.crit),
+        d.has o.1 = true → d.get o.1 ≠ .null) :
+    ∃ res, (withTx false (Op.body likeFn fnFam (.findAll q)) noFault σ).1 = .ok (.docs res) ∧
+      res.length = (Spec.findAll likeFn fnFam q coll).length ∧
+      ∀ i (h₁ : i < res.length) (h₂ : i < (Spec.findAll likeFn fnFam q coll).length),
+        compareDocuments res[i] (Spec.findAll likeFn fnFam q coll)[i] q.sort = 0 := by
+  obtain ⟨res, hrun, hf⟩ := findAll_classwise_any_plan likeFn fnFam s σ hw hr q coll hl hdomain hsd hnn
+  exact ⟨res, hrun, forall₂_length _ hf, forall₂_getElem _ hf⟩
+
+/-- **`FindFirst` under any plan** answers nothing exactly when the specification does, and otherwise
+    a document tie-equivalent under the sort options to the specification's first document. -/
+theorem findFirst_is_the_specification_up_to_ties (s : Spec.State) (σ : KVS) (hw : WF s) (hr : Rep s σ) (q : Query)
+    (coll : Spec.Coll) (hl : Spec.lookup q.coll s = some coll) (hdomain : KeyDomain q coll)
+    (hsd : SortDom q.sort ((coll.docs.map (·.2)).filter (fun d => satOpt likeFn fnFam d q.crit)))
+    (hnn : (choosePlan coll.indexes q).2 = true →
+      ∀ o ∈ q.sort, ∀ d ∈ (coll.docs.map (·.2)).filter (fun d => satOpt likeFn fnFam d q.crit),
+        d.has o.1 = true → d.get o.1 ≠ .null) :
+    ∃ r, (withTx false (Op.body likeFn fnFam (.findFirst q)) noFault σ).1 = .ok (.docOpt r) ∧
+      ((r = none ∧ (Spec.findAll likeFn fnFam { q with limit := 1 } coll).head? = none) ∨
+        ∃ a b, r = some a ∧ (Spec.findAll likeFn fnFam { q with limit := 1 } coll).head? = some b ∧
+          compareDocuments a b q.sort = 0) :=
+  findFirst_class_any_plan likeFn fnFam s σ hw hr q coll hl hdomain hsd hnn
 
 end CV.Props.C08
 
